@@ -270,6 +270,17 @@ Theorem C12_src_recv_close : forall s m mz,
 Proof. exact recv_close_src_eq. Qed.
 Print Assumptions C12_src_recv_close.
 
+(* NetstringSocket.read_ns / write_ns: the statements between the buffered-socket calls (size check, the
+   bookkeeping of the consumed bytes and its ORDER relative to the calls, the un-read handler, the trailer
+   check, the frame construction, len(str(maxsize)) + 1) *)
+Theorem C12_src_read_ns : forall x m, read_ns_src x m = read_ns x m.
+Proof. exact read_ns_src_eq. Qed.
+Print Assumptions C12_src_read_ns.
+
+Theorem C12_src_write_ns : forall x p, write_ns_src x p = write_ns x p.
+Proof. exact write_ns_src_eq. Qed.
+Print Assumptions C12_src_write_ns.
+
 (* the hypotheses are met by the code's own values: maxsize=None is 1024**5 (regenerated constant), far above
    any stream the model runs on *)
 Example C12_src_ex :
